@@ -15,7 +15,8 @@ RULE = ("seeded operation histories (add incl. start=True, overwrite-add, remove
         "over the model with explicit minimum-image vectors; an icontract class invariant compares the four internal "
         "views after every public call. 'big' histories pre-load 5001 positions so that start=True opens further "
         "trees. non-trivial = history with >= 10 force queries that saw >= 1 neighbour; distinct = hash of the "
-        "operation list")
+        "operation list"
+        ' Later: pre-loaded residues confined to a slab with probes next to residues of later trees; queries exactly on a positioned residue.')
 ASSUMPTIONS = ["a force query within 0.1 nm of an *excluded* residue may return inf or the finite sum (statement silent)",
                "pairs whose distance is within 1e-9 of the cut-off or of 0.1 nm are accepted either way",
                "queries are made for nodes that are not themselves positioned"]
